@@ -1296,7 +1296,10 @@ def safe_module(rng, maxw=6):
     m = Module()
     m.clock_domains.cd_sys = ClockDomain("sys")
     ins = make_sigs(rng, rng.randint(2, 3), maxw=maxw, prefix="i", p_signed=0.0)
-    regs = [Signal(rng.randint(1, maxw), name_override="r%d" % k, reset=rng.choice([0, 1])) for k in range(rng.randint(1, 3))]
+    regs = []
+    for k in range(rng.randint(1, 3)):
+        w = rng.randint(1, maxw)
+        regs.append(Signal(w, name_override="r%d" % k, reset=rng.choice([0, 1, rng.randrange(1 << w)])))
     combs = []
     readable = ins + regs
     for k in range(rng.randint(1, 2)):
@@ -1309,8 +1312,8 @@ def safe_module(rng, maxw=6):
     g = L.SafeGen(rng, list(readable), [], complex_slices=True)
     sg = L.StmtGen(rng, SafeAdapter(g))
     m.sync += sg.stmts(regs, rng.randint(1, 2))
-    # internal registers only (an `output reg` port carries no initialiser), comb signals as ports
-    ios = set(ins) | set(combs) | {m.cd_sys.clk, m.cd_sys.rst}
+    # registers (`output reg` ports carry their `= reset` initialiser) and comb signals as ports
+    ios = set(ins) | set(combs) | set(regs) | {m.cd_sys.clk, m.cd_sys.rst}
     return m, ios
 
 
